@@ -386,6 +386,47 @@ class Interp(InterpBase, ExprMixin, AttrMixin, CallMixin, StmtMixin, CompMixin):
             env[a.kwarg.arg] = V(("param", a.kwarg.arg), [py("dict")])
         return env, selfv
 
+    def fields_stored_later(self, c):
+        """names of instance fields that a member other than the constructors assigns (self.<f> = ..., along the MRO)"""
+        cache = self.cfg.__dict__.setdefault("_later_cache", {})
+        got = cache.get(c.name)
+        if got is None:
+            got = set()
+            for k in self.M.mro(c):
+                for table in ("methods", "getters", "setters", "deleters"):
+                    for nm, fn in getattr(k, table, {}).items():
+                        if nm == "__init__" or not fn.params:
+                            continue
+                        sname = fn.params[0]
+                        lazy = set()        # stores of the lazy-initialisation idiom: if self.f is None: self.f = ...
+
+                        def _tested_unset(test):
+                            t = test
+                            if isinstance(t, ast.Compare) and len(t.ops) == 1 and isinstance(t.ops[0], (ast.Is, ast.IsNot)) and \
+                                    isinstance(t.comparators[0], ast.Constant) and t.comparators[0].value is None:
+                                t = t.left
+                            elif isinstance(t, ast.UnaryOp) and isinstance(t.op, ast.Not):
+                                t = t.operand
+                            if isinstance(t, ast.Attribute) and isinstance(t.value, ast.Name) and t.value.id == sname:
+                                return t.attr
+                            return None
+                        for x in ast.walk(fn.node):
+                            if isinstance(x, ast.If):
+                                fld = _tested_unset(x.test)
+                                if fld is not None:
+                                    # either polarity, early-return form included: every store of the field in this member
+                                    for b in [fn.node]:
+                                        for y in ast.walk(b):
+                                            if isinstance(y, ast.Attribute) and isinstance(y.ctx, ast.Store) and y.attr == fld and \
+                                                    isinstance(y.value, ast.Name) and y.value.id == sname:
+                                                lazy.add(id(y))
+                        for x in ast.walk(fn.node):
+                            if isinstance(x, ast.Attribute) and isinstance(x.ctx, (ast.Store, ast.Del)) and \
+                                    isinstance(x.value, ast.Name) and x.value.id == sname and id(x) not in lazy:
+                                got.add(x.attr)
+            cache[c.name] = got
+        return got
+
     def init_prototype(self, selfv, cname):
         """abstract heap of a fresh handle: constants assigned to self.<attr> in the constructors along the MRO"""
         c = self.M.classes[cname]
@@ -409,6 +450,11 @@ class Interp(InterpBase, ExprMixin, AttrMixin, CallMixin, StmtMixin, CompMixin):
                 cache[k.name] = assigned
             for attr, vals in assigned.items():
                 if self.M.lookup(c, attr, "getters") is not None:
+                    continue
+                if attr in self.fields_stored_later(c):
+                    # some other member re-assigns the field: a handle that has been used is not a fresh one
+                    if (selfv.t, attr) in self.heap:
+                        del self.heap[(selfv.t, attr)]
                     continue
                 # a field has a known initial value only if the constructor assigns it exactly once, a constant
                 if len(vals) == 1 and isinstance(vals[0], ast.Constant):
